@@ -162,6 +162,7 @@ fn main() {
                 _ if engine == "e2e-batch" => e2e::replay_batch(leaked, case),
                 _ if engine == "e2e-height" => e2e::replay_height(case),
                 _ if engine == "e2e-config" => props::c19::replay(case),
+                _ if engine == "e2e-slow-pay" => e2e::replay_slow_pay(case),
                 _ if engine == "fuzz-request" => {
                     let bytes = hex::decode(case["input"].as_str().unwrap_or("")).unwrap_or_default();
                     let before = PANICS.with(|p| p.get());
